@@ -433,6 +433,11 @@ func runOp(ctx context.Context, inst *world.Instance, op wOp, pre *world.View) (
 			raw["cpu"] = 1
 		case "-mem":
 			raw["memory"] = int64(-50)
+		case "+mem-numa":
+			// more memory together with a re-cut NUMA layout (cores 0,2 | 1,3 instead of 0,1 | 2,3)
+			raw["memory"] = int64(100)
+			raw["numa-cpu"] = []string{"0,2", "1,3"}
+			raw["numa-memory"] = []string{"50", "50"}
 		}
 		o := &coretypes.SetNodeOptions{Nodename: op.Node, Delta: true, Bypass: coretypes.TriKeep}
 		switch op.Delta {
